@@ -6,7 +6,7 @@ ID = "C12"
 BOUNDS = {
     "quick": "evo_get_selection (if-converted, all wells symbolic 0/1: every subset of a geometry is one path) for every geometry rows 1..8 x columns 1..12 "
              "plus 16x24 and 26x48; evo_make_selection_array + evo_get_selection end to end with decode(encode) = id for all single-well, full and "
-             "2-well selections of plates 2x3, 8x12 and all single-well / full selections of every geometry up to 8x12 plus 14x3, 16x24, 26x48 (concrete, on real numpy, not solver-decided); to_hex for every dimension 1..255",
+             "2-well selections of plates 2x3, 8x12 (also with the wells given as 1-D / 2-D numpy arrays of ids: blocks, strided, reversed, fancy-indexed, transposed, hand-made) and all single-well / full selections of every geometry up to 8x12 plus 14x3, 16x24, 26x48 (concrete, on real numpy, not solver-decided); to_hex for every dimension 1..255",
     "thorough": "every geometry rows 1..26 x columns 1..48 (1248 geometries, all subsets each)",
 }
 OUTSIDE = "dimensions >= 256 (two hex digits)"
@@ -125,8 +125,15 @@ def scenario_concrete(ctx):
         sels = ([[w] for w in ids] if small or (R, C) == (8, 12) else [[ids[0]], [ids[-1]], [ids[len(ids) // 2]]]) + [ids] + [[ids[0], ids[0]]]
         if (R, C) in ((2, 3), (8, 12)):
             sels += [[a, b] for i, a in enumerate(ids[:12]) for b in ids[i + 1:12]]
+        if (R, C) in ((4, 6), (8, 12), (16, 24), (2, 3)):
+            # the wells as numpy arrays of ids: 1-D, and 2-D arrangements that are not a contiguous block in natural order
+            import numpy
+            Wg = numpy.array([[f"{ROWS[r]}{c + 1:02d}" for c in range(C)] for r in range(R)])
+            sels += [numpy.array(ids[:3]), Wg[0:2, 0:3], Wg[::2, :2], Wg[[0, R - 1], :], Wg[::-1, ::3], Wg[0:2, 0:3].T, Wg[:, [C - 1, 0]],
+                     numpy.array([[Wg[0, 0], Wg[R - 1, 0]], [Wg[0, C - 1], Wg[R - 1, C - 1]]]), Wg[1:2, 1:2], Wg]
         for wells in sels:
             arr = evo_make_selection_array(R, C, wells)
+            wells = [str(w) for w in (wells.flatten() if hasattr(wells, "flatten") else wells)]
             s = evo_get_selection(R, C, arr)
             try:
                 r2, c2, dec = evoscript.decode_selection(s)
